@@ -26,6 +26,7 @@ CallNo(m, t) == IF t \in DOMAIN m.callno THEN m.callno[t] ELSE 0
 
 NewStream(t, cn) == [ph |-> "opening", rid |-> Zero, devUn |-> 0, hostUn |-> FALSE, devClosed |-> FALSE, hostClosed |-> FALSE,
                      owner |-> t, call |-> cn, nsent |-> 0, wrote |-> <<>>,
+                     ownClse |-> FALSE,    \* the stream's CLSE was read off the wire by its owner while the stream was open (so the owner's operation has seen it)
                      foreign |-> FALSE,    \* a non-CLSE packet of this stream was read off the wire by a thread that does not own it
                      k1 |-> FALSE]         \* history signature of finding K1: the stream's CLSE was read by another thread while nothing of the stream had been parked
 
@@ -70,7 +71,7 @@ MonRd(m, e) ==
   IF e.cmd = "CNXN" THEN [m EXCEPT !.maxdata = e.a1]
   ELSE IF l \notin DOMAIN m.st THEN m
   ELSE LET m1 == MonRdStream(m, e) s == m.st[l] IN
-       IF e.t = s.owner THEN m1
+       IF e.t = s.owner THEN (IF e.cmd = "CLSE" /\ s.ph = "open" THEN [m1 EXCEPT !.st[l].ownClse = TRUE] ELSE m1)
        ELSE IF e.cmd = "CLSE" THEN [m1 EXCEPT !.st[l].k1 = ~s.foreign]
        ELSE [m1 EXCEPT !.st[l].foreign = TRUE]
 
@@ -133,7 +134,12 @@ MonStuck(m, e) == IF \E l \in Mine(m, e.t) : m.st[l].k1 THEN Bad(m, "C06.Stuck.K
 \* device an OKAY for a WRITE it consumed, the device is waiting for that OKAY (stop-and-wait) - the host forgot to acknowledge
 MonStall(m, e) == IF \E l \in Mine(m, e.t) : m.st[l].devUn > 0 /\ ~m.st[l].hostClosed THEN Bad(m, "C04.MissingOkay") ELSE m
 
+\* a shell-like command that gives up on its own (AdbTimeoutError: a deadline of the library, not a failure of the transport) after it
+\* has taken the device's CLOSE off the wire must have answered it: "a device CLOSE is answered with exactly one CLOSE"
+CloseUnanswered(m, e) == /\ e.cls = "AdbTimeoutError" /\ e.t \in DOMAIN m.api /\ m.api[e.t].api \in ShellLike
+                         /\ \E l \in Mine(m, e.t) : m.st[l].ownClse /\ ~m.st[l].hostClosed
 MonExc(m, e) == IF e.cls = "UnicodeDecodeError" THEN Bad(m, "C01.NoDecodeError")
+                ELSE IF CloseUnanswered(m, e) THEN Bad(m, "C04.CloseUnanswered")
                 ELSE IF e.t \in m.mustfail /\ e.cls \notin {"AdbConnectionError", "DevicePathInvalidError"} THEN Bad(m, "C13.RaisesWhenClosed")
                 ELSE [m EXCEPT !.mustfail = @ \ {e.t}]
 =============================================================================
